@@ -9,7 +9,7 @@ FOUNDATIONS = ['harness.foundation.filteriter']   # the models use the closed fo
 LEAN_TARGETS = ['Mahotas.Proofs.FilterIter']
 LEVEL = 'proof'
 MODES = ['nearest', 'wrap', 'reflect', 'mirror', 'constant', 'ignore']
-DTYPES = ['float64', 'float32', 'int32', 'uint8', 'int8', 'int64', 'uint16', 'bool']
+DTYPES = ['float64', 'float32', 'int32', 'uint8', 'int8', 'int64', 'uint16', 'bool', 'int16', 'uint32', 'uint64']
 DTN = {'float64': 'f64', 'float32': 'f32', 'bool': 'b1', 'uint8': 'u8', 'uint16': 'u16', 'uint32': 'u32',
        'uint64': 'u64', 'int8': 'i8', 'int16': 'i16', 'int32': 'i32', 'int64': 'i64'}
 # dyadic sigmas: 4*sigma+0.5 is computed exactly in double, so int(4*sigma+0.5) has no rounding ambiguity - both the
@@ -47,6 +47,14 @@ def _line(case):
         # the weights are the model's `laplacianWeightsG` (sum 0: C06_laplacian_weights_sum_zero)
         return (f"c06 kind=laplacian dt=f64 mode=0 shape={gen.enc_shape(case['shape'])} "
                 f"data={core.fmt_floats(_arr(case).astype(np.float64))} alpha={core.fmt_floats([float(case['alpha'])])}")
+    if k == 'sobel':
+        # sobel(img, just_filter=True): img as double, normalisation, two 3x3 convolutions (nearest), squares, sum
+        return (f"c06 kind=sobel dt=f64 mode=0 shape={gen.enc_shape(case['shape'])} "
+                f"data={core.fmt_floats(_arr(case).astype(np.float64))}")
+    if k == 'dog':
+        return (f"c06 kind=dog dt=f64 mode=0 shape={gen.enc_shape(case['shape'])} "
+                f"data={core.fmt_floats(_arr(case).astype(np.float64))} sigma={core.fmt_floats([float(case['sigma'])])} "
+                f"mult={core.fmt_floats([float(case['mult'])])}")
     dtn = DTN[case['dtype']]
     if k == 'gaussian' and np.dtype(case['dtype']).kind != 'f':
         dtn = 'f64'                                    # _as_floating_point_array: integers are converted to double
@@ -108,7 +116,14 @@ def _call(case, Al):
         if k == 'gaussian1d':
             return mh.gaussian_filter1d(Al, case['sigma'], case['axis'], case['order'], mode=case['mode'])
         if k == 'gaussian':
-            return mh.gaussian_filter(Al, case['sigma'], case['order'], mode=case['mode'])
+            # `_normalize_sequence`: a scalar stands for the same value on every axis
+            sg = case['sigma'][0] if case.get('sigma_scalar') else (tuple(case['sigma']) if case.get('as_tuple') else case['sigma'])
+            od = case['order'][0] if case.get('order_scalar') else (tuple(case['order']) if case.get('as_tuple') else case['order'])
+            return mh.gaussian_filter(Al, sg, od, mode=case['mode'])
+        if k == 'sobel':
+            return mh.sobel(Al, just_filter=True)
+        if k == 'dog':
+            return mh.dog(Al, case['sigma'], case['mult'], just_filter=True)
     raise ValueError(k)
 
 
@@ -122,6 +137,14 @@ def _range(dtype):
     return float(ii.min), float(ii.max)
 
 
+def _defined(drv, n):
+    d = drv.get('defined')
+    ok = np.ones(n, bool) if d is None else np.array([c == '1' for c in d.split(',')] if d else [], bool)
+    if drv.get('wdef') == '0':
+        ok = np.zeros(n, bool)
+    return ok
+
+
 def _judge(case, got, drv):
     out = []
     k = case['kind']
@@ -131,7 +154,7 @@ def _judge(case, got, drv):
         return [dict(kind='property', key=f'{k}:raises', detail=dict(error=case.get('_error', '')))]   # every input of the domain is valid
     A = _arr(case)
     want_dt = A.dtype
-    if k == 'laplacian' or (k == 'gaussian' and A.dtype.kind != 'f'):
+    if k in ('laplacian', 'sobel', 'dog') or (k == 'gaussian' and A.dtype.kind != 'f'):
         want_dt = np.dtype(np.float64)
     if got.shape != A.shape or got.dtype != want_dt:
         return [dict(kind='property', key=f'{k}:shape-dtype', detail=dict(shape=list(got.shape), dtype=str(got.dtype)))]
@@ -139,6 +162,19 @@ def _judge(case, got, drv):
     model = core.floats(drv.get('model', ''))
     path = drv.get('path', 'generic')
     case['_path'] = path
+    if k == 'sobel':
+        # integer data with a power-of-two range: every double operation is exact, so bit-for-bit. Not in the statement
+        # (edge.py is built from the C06 kernels): a disagreement is a broken tie of the composition model
+        bad = np.nonzero(g != model)[0]
+        if bad.size:
+            out.append(dict(kind='model', key='sobel-model', detail=dict(pixels=bad[:8].tolist(), got=g.tolist(), model=model.tolist())))
+        return out
+    if k == 'dog':
+        scale = 1.0 + float(np.max(np.abs(A))) if A.size else 1.0
+        bad = np.nonzero(~(np.abs(g - model) <= 1e-11 * scale))[0]
+        if bad.size:
+            out.append(dict(kind='model', key='dog-model', detail=dict(pixels=bad[:8].tolist(), got=g.tolist(), model=model.tolist())))
+        return out
     if k in ('gaussian1d', 'gaussian'):
         scale = 1.0 + float(np.max(np.abs(A))) if A.size else 1.0
         tol = (1e-11 if A.dtype == np.float64 or A.dtype.kind != 'f' else 1e-5) * scale
@@ -153,8 +189,8 @@ def _judge(case, got, drv):
         if int(drv['unwritten']) != 0 or sorted(core.ints(drv['xs'])) != list(range(case['shape'][1])):
             out.append(dict(kind='model', key='fastwrites:coverage', detail=dict(xs=drv['xs'], unwritten=drv['unwritten'])))
         m = core.floats(drv['out'])
-        lo, hi = _range(case['dtype'])
-        ok = (m >= lo) & (m <= hi)
+        ok = _defined(drv, m.size)
+        case['_skipped'] = int((~ok).sum())
         bad = np.nonzero(ok & (g != m))[0]
         if bad.size:
             out.append(dict(kind='model', key='fastwrites:value',
@@ -162,15 +198,22 @@ def _judge(case, got, drv):
         return out
     spec = core.floats(drv['spec'])
     lo, hi = _range(case['dtype'] if k != 'laplacian' else 'float64')
-    ok = (spec >= lo) & (spec <= hi)
+    # which cells are compared is decided by the Lean model of the C cast (`castDefined`: the truncated accumulator is
+    # representable; C06_cast_in_range) - everywhere else `static_cast<T>(double)` is undefined behaviour. A weight whose
+    # own cast to f.dtype is undefined (`wdef=0`) puts the whole call outside the documented domain.
+    ok = _defined(drv, spec.size)
+    if not np.array_equal(ok & np.isfinite(spec), ok & (spec >= lo) & (spec <= hi)):
+        raise core.Infra('C06: castDefined disagrees with the dtype range: ' + str(case)[:300])
     case['_skipped'] = int((~ok).sum())
+    if drv.get('wdef') == '0':
+        case['_wundef'] = 1
     bad = np.nonzero(ok & (g != spec))[0]
     if bad.size:
         out.append(dict(kind='property', key=f'{k}:{path}',
                         detail=dict(pixels=bad[:8].tolist(), got=g.tolist(), spec=spec.tolist(), path=path,
                                     mode=case['mode'])))
     else:
-        okm = (model >= lo) & (model <= hi) & ok
+        okm = ok
         badm = np.nonzero(okm & (g != model))[0]
         if badm.size:
             out.append(dict(kind='model', key=f'{k}-model:{path}',
@@ -250,6 +293,8 @@ def evaluate(cases):
             tags['axis'] = 'neg' if ax < 0 else 'pos'
         if case.get('_skipped'):
             tags['overflow_pixels_skipped'] = 'yes'
+        if case.get('_wundef'):
+            tags['weights_cast_undefined'] = 'yes'
         clean = {k: v for k, v in case.items() if not k.startswith('_')}
         for x in f:
             x['case'] = clean
@@ -271,6 +316,11 @@ def _values(rng, n, dtype):
     dt = np.dtype(dtype)
     if dt.kind == 'b':
         return [int(rng.random() < 0.5) for _ in range(n)]
+    if dt.kind in 'ui' and dt.itemsize <= 2 and rng.random() < 0.15:
+        # values at the limits of a narrow dtype: accumulators beyond the range (skipped cells) next to cells just inside
+        ii = np.iinfo(dt)
+        pool = [int(ii.max), int(ii.max) - 1, int(ii.max) // 2, 0, 1] + ([int(ii.min), int(ii.min) + 1, -1] if ii.min < 0 else [])
+        return [rng.choice(pool) for _ in range(n)]
     if dt.kind == 'u':
         return [rng.randint(0, 9) for _ in range(n)]
     if dt.kind == 'i':
@@ -289,7 +339,9 @@ def _weights(rng, n, dtype):
         if u < 0.25:
             out.append(0.0)
         elif style < 0.15 and dt.kind != 'f':
-            out.append(rng.randint(-9, 9) / 4.0)            # fractional weights on an integer image: cast truncates
+            # fractional weights on an integer image: the cast truncates; mostly non-negative for unsigned images (a weight
+            # below -1 has no defined cast there: the case is then void, tagged weights_cast_undefined)
+            out.append((rng.randint(-3, 9) if dt.kind in 'ub' and rng.random() < 0.9 else rng.randint(-9, 9)) / 4.0)
         elif dt.kind == 'f' and style < 0.4:
             out.append(rng.randint(-12, 12) / 4.0)
         elif dt.kind in 'ub':
@@ -371,6 +423,37 @@ def cases(rng, tier):
             shape = [rng.choice([1, 2, 3, 4, 6]), rng.choice([1, 2, 3, 5])]
             out.append(dict(kind='laplacian', dtype=dtype, shape=shape, data=_values(rng, int(np.prod(shape)), dtype),
                             alpha=rng.choice([0, 1, 0.0, 1.0, -2, 3]), mode='nearest', layout=layout))   # dyadic weights
+        elif r < 0.845:
+            # edge.sobel / edge.dog (just_filter=True): compositions of the C06 kernels
+            shape = [rng.randint(1, 7), rng.randint(1, 7)]
+            n = shape[0] * shape[1]
+            if rng.random() < 0.7:
+                k = rng.choice([0, 1, 2, 3, 4, 6])
+                lo = rng.choice([0, 0, -5, 3, 100])
+                if dtype == 'bool':
+                    k, lo = 0, 0
+                elif np.dtype(dtype).kind == 'u' or np.dtype(dtype).itemsize == 1:
+                    lo = abs(lo) % 50
+                style = rng.random()
+                if style < 0.25 and shape[0] * shape[1] > 1:          # an affine ramp a*y + b*x (+ lo), range a power of two when possible
+                    a, b = rng.choice([(1, 0), (0, 1), (1, 1), (2, 1), (0, 2)])
+                    data = [lo + a * y + b * x for y in range(shape[0]) for x in range(shape[1])]
+                    if dtype == 'bool':
+                        data = [int(v > 0) for v in data]
+                else:
+                    data = [lo + rng.randint(0, 2 ** k) for _ in range(n)]
+                    if n >= 2 and style < 0.9:
+                        i, j = rng.sample(range(n), 2)
+                        data[i], data[j] = lo, lo + 2 ** k           # ptp = 2^k exactly: the normalisation is exact
+                ptp = max(data) - min(data)
+                if ptp & (ptp - 1):                                    # not a power of two: x/ptp is rounded, then not bit-exact
+                    data = [min(v, min(data) + (1 << (ptp.bit_length() - 1))) for v in data]
+                out.append(dict(kind='sobel', dtype=dtype if dtype != 'float32' else 'float64', shape=shape, data=[float(v) for v in data],
+                                mode='nearest', layout=layout))
+            else:
+                out.append(dict(kind='dog', dtype=rng.choice(['float64', 'uint8', 'int32']), shape=shape,
+                                data=[float(rng.randint(0, 9)) for _ in range(n)], sigma=rng.choice([0.5, 1.0, 2.0, 1.5]),
+                                mult=rng.choice([1.001, 1.5, 2.0]), mode='nearest', layout=layout))
         elif r < 0.87:
             n1 = rng.randint(2, 9)
             shape = [rng.randint(1, 3), n1]
@@ -392,6 +475,14 @@ def cases(rng, tier):
                 out.append(dict(kind='gaussian', dtype=gdt, shape=shape, data=_values(rng, int(np.prod(shape)), gdt),
                                 sigma=[rng.choice(SIGMAS)] * nd if same else [rng.choice(SIGMAS) for _ in range(nd)],
                                 order=[rng.randint(0, 3) for _ in range(nd)], mode=mode, layout=layout))
+                c = out[-1]
+                # the Python argument forms `_normalize_sequence` accepts: scalar (same on every axis), list, tuple
+                if len(set(c['sigma'])) == 1 and rng.random() < 0.6:
+                    c['sigma_scalar'] = True
+                if rng.random() < 0.4:
+                    c['order'] = [c['order'][0]] * nd
+                    c['order_scalar'] = True
+                c['as_tuple'] = rng.random() < 0.5
     return out
 
 
